@@ -13,6 +13,10 @@ Run == /\ l <= Len(Rec) /\ Rec[l].e = "wl"
        /\ LET e == Rec[l] IN
             /\ Success(e) \/ Reported(e)                       \* nothing else (e.g. a panic in close or the constructor)
             /\ (Success(e) => e.file_complete)                 \* NoSilentLoss
+            \* ... also later: closing again after a failed close, or after a caught push panic, while the limit
+            \* still holds, reports the failure again (never "ok" for the incomplete file, never a panic in close)
+            /\ (e.close_again = "ok" => e.file_complete)
+            /\ e.close_again \in {"not reached", "ok", "err"}
             /\ (e.limit >= e.final_size => Success(e))         \* no spurious failure
             /\ (e.limit < e.final_size => ~e.file_complete)    \* sanity: the limit really bites
        /\ l' = l + 1
